@@ -397,6 +397,35 @@ pub trait VNowOrNone<T>: std::future::Future<Output = Option<T>> + Sized {
 }
 impl<T, F: std::future::Future<Output = Option<T>>> VNowOrNone<T> for F {}
 
+/// `fut.await<postfix>` at the end of a lowered function: a plain struct future (poll the inner future, apply the postfix).
+pub struct TailFut<F, G> {
+    f: F,
+    g: Option<G>,
+}
+impl<F, G> TailFut<F, G> {
+    pub fn new<T>(f: F, g: G) -> Self
+    where
+        F: std::future::Future,
+        G: FnOnce(F::Output) -> T,
+    {
+        TailFut { f, g: Some(g) }
+    }
+}
+impl<F, G> Unpin for TailFut<F, G> {}
+impl<T, F: std::future::Future + Unpin, G: FnOnce(F::Output) -> T> std::future::Future for TailFut<F, G> {
+    type Output = T;
+    fn poll(mut self: std::pin::Pin<&mut Self>, cx: &mut std::task::Context<'_>) -> std::task::Poll<T> {
+        let me = &mut *self;
+        match std::pin::Pin::new(&mut me.f).poll(cx) {
+            std::task::Poll::Ready(v) => match me.g.take() {
+                Some(g) => std::task::Poll::Ready(g(v)),
+                None => panic!("TailFut polled after completion"),
+            },
+            std::task::Poll::Pending => std::task::Poll::Pending,
+        }
+    }
+}
+
 include!("select.rs");
 include!("select_now.rs");
 
